@@ -41,7 +41,9 @@ Why(r) ==
 Accept(r) ==
     CASE r.k = "render" -> AcceptRender(r)
       [] r.k = "same"   -> (Mode = "C13") => (r.bytes_equal /\ r.a = r.b)
-      [] r.k = "file"   -> (Mode = "C12") => (~r.garbage /\ \A c \in Cats : r.present[c] = r.nonempty[c])
+      [] r.k = "file"   -> /\ (Mode = "C12") => (~r.garbage /\ \A c \in Cats : r.present[c] = r.nonempty[c])
+                           \* C11 at the written file: no category's entries may be missing altogether
+                           /\ (Mode = "C11") => (~r.garbage /\ \A c \in Cats : r.nonempty[c] => r.present[c])
       [] OTHER          -> FALSE
 
 Init == l = 1 /\ bad = <<>>
